@@ -529,6 +529,21 @@ static bool more_probe(std::string const& op, Toks& in, Out& impl, Out& ref)
             doc(ref, which == "add2" ? (xy && xz) : xy);
             return true;
         }
+        if (which == "copy1m" || which == "copy1s") {
+            // mixed index types (int / unsigned long: extents are compared with cmp_not_equal) and a static extent 3
+            // against a dynamic one
+            auto nx = static_cast<int>(in.num()); auto ny = in.sz();
+            if (which == "copy1m") {
+                etl::mdspan<float, e1> x(bx, nx); etl::mdspan<float, etl::dextents<unsigned long, 1>> y(by, static_cast<unsigned long>(ny));
+                watch_none(impl, [&] { etl::linalg::copy(x, y); });
+                doc(ref, static_cast<u64>(nx) == ny);
+            } else {
+                etl::mdspan<float, etl::extents<int, 3>> x(bx); etl::mdspan<float, e1> y(by, static_cast<int>(ny));
+                watch_none(impl, [&] { etl::linalg::copy(x, y); });
+                doc(ref, ny == 3);
+            }
+            return true;
+        }
         if (which == "mvp") {
             auto a0 = static_cast<int>(in.num()); auto a1 = static_cast<int>(in.num()); auto x0 = static_cast<int>(in.num()); auto y0 = static_cast<int>(in.num());
             etl::mdspan<float, e2> am(bx, a0, a1); etl::mdspan<float, e1> x(by, x0); etl::mdspan<float, e1> y(bz, y0);
